@@ -45,6 +45,9 @@ def flow_model(kind, flow, columns, rows, children):
     return cells, None
 
 
+DUPLICABLE = ("row", "column", "rowStretch", "columnStretch", "rowMinimumHeight", "columnMinimumWidth")
+
+
 def gen_case(rng, i):
     kind = rng.choice(("grid", "grid", "grid", "form", "vbox", "hbox"))
     n = rng.randint(1, 14)
@@ -118,6 +121,8 @@ def gen_case(rng, i):
                 opts += ["conflict"]
         if kind == "grid":
             opts += ["zero-count", "neg-count", "huge-count"]
+        if any(k in ch for ch in children for k in DUPLICABLE):
+            opts += ["dup-attached"]
         if opts:
             what = rng.choice(opts)
             ch = rng.choice(children)
@@ -151,6 +156,11 @@ def gen_case(rng, i):
                     case["columns"] = -2
                 else:
                     case["rows"] = -1
+            elif what == "dup-attached":
+                # one child states the same attachment twice with two values: whichever were taken, the other is contradicted
+                ch = rng.choice([c for c in children if any(k in c for k in DUPLICABLE)])
+                k = rng.choice([k for k in DUPLICABLE if k in ch])
+                ch["dup"] = (k, ch[k] + rng.choice((1, 2)))
             elif what == "conflict":
                 # two children of one row with different row stretch (or one column, column stretch)
                 cells, _ = flow_model(kind, flow, ecols, erows, children)
@@ -192,6 +202,8 @@ def to_qml(case):
                 out.append("            %s.%s: %d" % (owner, k, ch[k]))
         if "alignment" in ch:
             out.append("            QLayout.alignment: %s" % " | ".join(ch["alignment"]))
+        if "dup" in ch:
+            out.append("            QLayout.%s: %d" % ch["dup"])
         out.append("        }")
     out += ["    }", "}", ""]
     return "\n".join(out)
